@@ -187,18 +187,11 @@ class _MCQuad(torch.autograd.Function):
             ftensor_params = fptensor_params[:nftensorparams]
             ptensor_params = fptensor_params[nftensorparams:]
             with torch.enable_grad():
-                # if graph is constructed, then fptensor_params is a clone of
-                # fptensor_params from outside, therefore, it needs to be put
-                # in the pure function's objects (that's what function_wrap does)
-                if grad_enabled:
-                    fout = function_wrap(ffcn, ctx.fparam_sep, nfparams, x, ftensor_params)
-                    pout = function_wrap(log_pfcn, ctx.pparam_sep, npparams, x, ptensor_params)
-                # if graph is not constructed, then fptensor_params in this
-                # function *is* fptensor_params in the outside, so we can
-                # just use fparams and pparams from the outside
-                else:
-                    fout = ffcn(x, *fparams)
-                    pout = log_pfcn(x, *pparams)
+                # fptensor_params is a copy of fptensor_params from outside,
+                # therefore, it needs to be put in the pure function's objects
+                # (that's what function_wrap does)
+                fout = function_wrap(ffcn, ctx.fparam_sep, nfparams, x, ftensor_params)
+                pout = function_wrap(log_pfcn, ctx.pparam_sep, npparams, x, ptensor_params)
             # derivative of fparams
             dLdthetaf = []
             if len(ftensor_params) > 0:
@@ -222,7 +215,9 @@ class _MCQuad(torch.autograd.Function):
         if grad_enabled:
             fptensor_params_copy = [y.clone().requires_grad_() for y in fptensor_params]
         else:
-            fptensor_params_copy = fptensor_params
+            # detached copies: a parameter that is a function of another one
+            # must not be differentiated through here (autograd does that)
+            fptensor_params_copy = [y.detach().requires_grad_(y.requires_grad) for y in fptensor_params]
 
         aug_epfs = _mcquad(aug_function, log_pfcn,
                            x0=xsamples[0],  # unused because xsamples is set
